@@ -1235,15 +1235,21 @@ class Interp(object):
 
 
 def _has_yield(fn):
+    cached = getattr(fn, "_sa_has_yield", None)      # the answer is a property of the def node: computed once (calls are frequent)
+    if cached is not None:
+        return cached
     todo = list(fn.body) if not isinstance(fn, ast.Lambda) else []
+    found = False
     while todo:
         n = todo.pop()
         if isinstance(n, (ast.Yield, ast.YieldFrom)):
-            return True
+            found = True
+            break
         if isinstance(n, (ast.FunctionDef, ast.Lambda, ast.ClassDef)):
             continue
         todo.extend(ast.iter_child_nodes(n))
-    return False
+    fn._sa_has_yield = found
+    return found
 
 
 # --------------------------------------------------------------------------------------------- modelled stdlib / numpy / scipy
@@ -1553,6 +1559,17 @@ class CSR(object):
         raise Unsupported("csr_matrix.toarray not modelled")
 
 
+class COO(object):
+    """scipy.sparse.coo_matrix((data, (rows, cols)), shape): only as a way to a CSR matrix"""
+    _sa_mock = True
+
+    def __init__(self, arg, shape=None, dtype=None, copy=False):
+        self.arg, self.shape_arg, self.dtype = arg, shape, dtype
+
+    def tocsr(self, copy=False):
+        return CSR(self.arg, shape=self.shape_arg, dtype=self.dtype)
+
+
 class LoggerMock(object):
     _sa_mock = True
 
@@ -1579,7 +1596,7 @@ def stdlib_overrides(state=None):
     state = state if state is not None else {"log_level": 30}
     lg = LoggerMock(state)
     logging_ns = Namespace("logging", getLogger=lambda *a, **k: lg, DEBUG=10, INFO=20, WARNING=30, ERROR=40, CRITICAL=50, NOTSET=0, Logger=LoggerMock)
-    sparse = Namespace("scipy.sparse", csr_matrix=CSR, csr_array=CSR, isspmatrix_csr=lambda x: isinstance(x, CSR), issparse=lambda x: isinstance(x, CSR))
+    sparse = Namespace("scipy.sparse", csr_matrix=CSR, csr_array=CSR, coo_matrix=COO, coo_array=COO, isspmatrix_csr=lambda x: isinstance(x, CSR), issparse=lambda x: isinstance(x, CSR))
     sparse.csr = Namespace("scipy.sparse.csr", csr_matrix=CSR)
     scipy_ns = Namespace("scipy", sparse=sparse, optimize=AutoMock("scipy.optimize"))
     coll = Namespace("collections", OrderedDict=collections.OrderedDict, defaultdict=collections.defaultdict, deque=collections.deque, Counter=collections.Counter,
